@@ -48,6 +48,9 @@ type W struct {
 	Opts    []ucfg.Option
 	MaxPool int
 	own     map[string]bool
+
+	opDetail map[string]string // structured facts about the last operation, for known-finding matchers
+	detached []*Handle         // handles whose node was removed / replaced (candidates for re-attachment)
 }
 
 // oracle ownership: which property an oracle's verdict belongs to.
@@ -87,6 +90,16 @@ func (w *W) owns(oracle string) bool {
 // fail reports a failed oracle: a violation if the oracle belongs to the
 // property under check, otherwise a foreign observation.
 func (w *W) fail(oracle, op string, detail map[string]string, format string, a ...interface{}) {
+	if len(w.opDetail) > 0 {
+		d := map[string]string{}
+		for k, v := range detail {
+			d[k] = v
+		}
+		for k, v := range w.opDetail {
+			d[k] = v
+		}
+		detail = d
+	}
 	if w.owns(oracle) {
 		w.R.FailD(oracle, op, detail, format, a...)
 	}
@@ -190,6 +203,12 @@ func (w *W) gc() {
 	for _, h := range w.H {
 		if w.isLive(h) {
 			keep = append(keep, h)
+		} else if !h.Dead && h.M.Detached && h.M.K == model.KSub && !hasMixed(h.M) {
+			// the application still holds this config although it was removed from its tree
+			w.detached = append(w.detached, h)
+			if len(w.detached) > 3 {
+				w.detached = w.detached[1:]
+			}
 		}
 	}
 	w.H = keep
@@ -369,7 +388,8 @@ func (w *W) checkState(h *Handle, op string) {
 	if err := h.M.CheckLinks(); err != nil {
 		panic("harness: " + err.Error())
 	}
-	if h.M.Mixed() && !h.C.IsDict() {
+	if h.M.Mixed() {
+		w.checkMixed(h, op)
 		return
 	}
 	got, err := w.unpackGeneric(h.C, "Unpack")
@@ -381,6 +401,30 @@ func (w *W) checkState(h *Handle, op string) {
 	want := h.M.Canon()
 	if g := model.CanonValue(got); g != want {
 		w.fail("state", op, map[string]string{"got": g, "want": want}, "after %s: handle %d (path %q) unpacks to\n   %s\nbut the reference tree says\n   %s", op, h.ID, h.M.Path("."), g, want)
+	}
+}
+
+// checkMixed compares a node that has both a dictionary and a list part: a
+// typed top-level target shows one part at a time.
+func (w *W) checkMixed(h *Handle, op string) {
+	var m map[string]interface{}
+	var l []interface{}
+	var err error
+	w.R.MustComplete("Unpack", func() { err = h.C.Unpack(&m, w.Opts...) })
+	if err == nil {
+		w.R.MustComplete("Unpack", func() { err = h.C.Unpack(&l, w.Opts...) })
+	}
+	if err != nil {
+		w.fail("state", op, nil, "after %s: generic Unpack of handle %d failed: %v", op, h.ID, err)
+		return
+	}
+	dpart := &model.Node{K: model.KSub, D: h.M.D}
+	lpart := &model.Node{K: model.KSub, A: h.M.A}
+	if g, want := model.CanonValue(m), dpart.Canon(); g != want {
+		w.fail("state", op, map[string]string{"got": g, "want": want}, "after %s: handle %d (path %q) unpacks into a map as\n   %s\nbut the dictionary part of the reference tree is\n   %s", op, h.ID, h.M.Path("."), g, want)
+	}
+	if g, want := model.CanonValue(l), lpart.Canon(); g != want {
+		w.fail("state", op, map[string]string{"got": g, "want": want}, "after %s: handle %d (path %q) unpacks into a list as\n   %s\nbut the list part of the reference tree is\n   %s", op, h.ID, h.M.Path("."), g, want)
 	}
 }
 
@@ -466,6 +510,7 @@ func (w *W) checkStructure(root *Handle, op string) {
 // Step executes one operation chosen by the tape and checks the invariants.
 func (w *W) Step() {
 	w.R.NextStep()
+	w.opDetail = nil
 	f := w.F
 	weights := []int{f.WCreate, f.WMerge, f.WSet, f.WSetChild, f.WRemove, f.WChild, f.WRead, f.WIllegal}
 	if len(w.roots()) == 0 {
@@ -669,6 +714,7 @@ func (w *W) opMerge() string {
 	if w.F.FieldOpts && w.Sep != "" && mo.Global != model.HReplace {
 		cands := w.fieldPaths(dst.M, srcTree)
 		n := t.Choose(4, "n-field-opts")
+		wildMerge := t.Chance(1, 6, "field-opt-wild")
 		used := map[string]bool{}
 		for i := 0; i < n && len(cands) > 0; i++ {
 			var p []string
@@ -685,10 +731,14 @@ func (w *W) opMerge() string {
 			h := []model.Handling{model.HMerge, model.HReplace, model.HAppend, model.HPrepend}[t.Choose(4, "field-opt-policy")]
 			fo := model.FieldOpt{Path: p, H: h}
 			name := key
-			if t.Chance(1, 6, "field-opt-wild") && !used["~"+last] {
+			// a merge carries either explicit paths or "**" wildcards: how an explicit path
+			// inside the subtree of a wildcard match combines with it is not defined by C16
+			if wildMerge && !used["~"+last] {
 				if _, err := strconv.Atoi(last); err != nil {
 					fo = model.FieldOpt{Path: []string{last}, Wild: true, H: h}
 					name = "**." + last
+				} else {
+					continue
 				}
 			}
 			used[name] = true
@@ -698,6 +748,20 @@ func (w *W) opMerge() string {
 			opts = append(opts, fieldOption(h, name))
 			fdesc = append(fdesc, fmt.Sprintf("%s=%s", name, h))
 		}
+	}
+
+	// known finding O12: an option's path also matches every path that contains it as a subsequence
+	if len(mo.Fields) > 0 {
+		spurious := false
+		for _, fo := range mo.Fields {
+			if !fo.Wild && spuriousMatch(fo.Path, dst.M, srcTree) {
+				spurious = true
+			}
+		}
+		if spurious && w.R.Avoid["O12"] {
+			return ""
+		}
+		w.opDetail = map[string]string{"spurious_field_match": fmt.Sprint(spurious)}
 	}
 
 	// C10 observations before
@@ -764,6 +828,48 @@ func (w *W) opMerge() string {
 		w.R.Probe("merge: *Config source re-observed after the merge")
 	}
 	return "Merge"
+}
+
+// spuriousMatch: is there a node path in either operand, other than p itself,
+// that contains p as a subsequence ending at the path's last element?
+func spuriousMatch(p []string, trees ...*model.Node) bool {
+	found := false
+	for _, t := range trees {
+		t.Walk(func(_ *model.Node, segs []model.Seg) {
+			if found || len(segs) < len(p) || len(segs) == 0 {
+				return
+			}
+			q := make([]string, len(segs))
+			for i, s := range segs {
+				q[i] = s.String()
+			}
+			if q[len(q)-1] != p[len(p)-1] {
+				return
+			}
+			same := len(q) == len(p)
+			if same {
+				for i := range p {
+					if p[i] != q[i] {
+						same = false
+					}
+				}
+				if same {
+					return
+				}
+			}
+			// p[:-1] subsequence of q[:-1]?
+			j := 0
+			for i := 0; i < len(q)-1 && j < len(p)-1; i++ {
+				if q[i] == p[j] {
+					j++
+				}
+			}
+			if j == len(p)-1 {
+				found = true
+			}
+		})
+	}
+	return found
 }
 
 // clash reports whether merging b into a would create a node with both parts.
@@ -878,23 +984,64 @@ func (w *W) opSetChild() string {
 	if !ok {
 		return ""
 	}
-	tree := w.G.Container()
 	var c *ucfg.Config
 	var err error
-	w.R.MustComplete("NewFrom", func() { c, err = ucfg.NewFrom(Render(tree, RepGeneric, w.Opts), w.Opts...) })
-	if err != nil {
-		w.fail("op-result", "NewFrom", nil, "NewFrom failed on a valid input: %v", err)
-		return ""
+	var tree *model.Node
+	var existing *Handle
+	kind := w.R.T.Weighted([]int{4, 1, 1}, "setchild-kind")
+	switch kind {
+	case 1:
+		// another root of the pool moves into this tree (the caller keeps its handle)
+		var cands []*Handle
+		for _, r := range w.roots() {
+			if r.M != h.M.Root() && r.M.K == model.KSub {
+				cands = append(cands, r)
+			}
+		}
+		existing = w.pick(cands, "setchild-root")
+	case 2:
+		// a config that was attached elsewhere and has been removed / replaced there
+		if w.F.MoveBias && !w.R.Avoid["O11"] && len(w.detached) > 0 {
+			existing = w.detached[w.R.T.Choose(len(w.detached), "setchild-detached")]
+			w.detached = nil
+		}
 	}
-	w.R.Tracef("h%d.SetChild at %s [%s] := h%d %s", h.ID, a, model.PathString(a.Segs, "."), w.nextID+1, tree.Canon())
+	if existing != nil {
+		c, tree = existing.C, existing.M
+		w.R.Tracef("h%d.SetChild at %s [%s] := h%d (existing config, %s) %s", h.ID, a, model.PathString(a.Segs, "."), existing.ID, map[int]string{1: "a root", 2: "was attached elsewhere"}[kind], tree.Canon())
+		w.opDetail = map[string]string{"reattach": fmt.Sprint(kind == 2)}
+	} else {
+		tree = w.G.Container()
+		w.R.MustComplete("NewFrom", func() { c, err = ucfg.NewFrom(Render(tree, RepGeneric, w.Opts), w.Opts...) })
+		if err != nil {
+			w.fail("op-result", "NewFrom", nil, "NewFrom failed on a valid input: %v", err)
+			return ""
+		}
+		w.R.Tracef("h%d.SetChild at %s [%s] := h%d %s", h.ID, a, model.PathString(a.Segs, "."), w.nextID+1, tree.Canon())
+	}
 	w.R.MustComplete("SetChild", func() { err = h.C.SetChild(a.Name, a.Idx, c, w.Opts...) })
 	if err != nil {
 		w.checkErrTyped(err, "SetChild")
 		w.fail("op-result", "SetChild", nil, "SetChild at legal address %s failed: %v", a, err)
 		return ""
 	}
+	tree.Detached = false
 	h.M.Set(a.Segs, tree)
-	w.addHandle(c, tree)
+	if existing == nil {
+		w.addHandle(c, tree)
+	} else {
+		existing.Dead = false
+		found := false
+		for _, x := range w.H {
+			if x == existing {
+				found = true
+			}
+		}
+		if !found {
+			w.H = append(w.H, existing)
+		}
+		w.R.Probe("setchild: an existing config (root or formerly attached) is attached")
+	}
 	w.R.StateOps++
 	w.R.Probe("setchild: caller keeps a live handle to the attached config")
 	return "SetChild"
